@@ -205,7 +205,7 @@ Inductive event :=
   | EvOpen (c : N)                 (* ZipFile(...) constructed on container c *)
   | EvValidate (c : N) (ok : bool) (* validate_zipfile returned (true) / raised (false) *)
   | EvRead (c : N)                 (* ZipFile.open / ZipFile.read of a member *)
-  | EvClose (c : N).
+  | EvClose (c : N).               (* an open archive is closed (repeated close() calls are not events) *)
 
 Inductive zstate := Unopened | Validated | Closed | Failed.
 
@@ -226,7 +226,6 @@ Definition zstep (L : limits) (c : N) (s : zstate) (op : zop) : zstate * list ev
       else (Failed, [])
   | Validated, OpRead => (Validated, [EvRead c])
   | Validated, OpClose => (Closed, [EvClose c])
-  | Closed, OpClose => (Closed, [EvClose c])
   | s, _ => (s, [])            (* no object (constructor raised), or zipfile refuses a closed archive *)
   end.
 
